@@ -1,5 +1,8 @@
 import Afkak.Monitor.C05
 import AfkakProofs.Wire.RespProofs3
+import AfkakProofs.Wire.MsgSet
+import AfkakProofs.Wire.RespProofs4
+import AfkakProofs.Wire.FetchResp
 import AfkakProps.Open.C05
 /-!
 # C05 — responses and message sets decode to exactly what was encoded
@@ -53,6 +56,95 @@ theorem C05_absolute_offsets_v0 (ext : Ext) (recSet : Bytes → Gen) (att : Int)
 example : (5 : Int).toNat &&& attributeCodecMask = codecGzip.toNat := by decide
 example : v1Inner 102 ([⟨0, default⟩, ⟨1, default⟩, ⟨2, default⟩], none)
     = ([⟨100, default⟩, ⟨101, default⟩, ⟨102, default⟩], none) := by decide
+
+/-! ## message sets -/
+
+/-- **Encoding then decoding is the identity on messages**: a set of uncompressed messages of either
+    format — null or empty keys and values, any attributes outside the codec bits, any offsets and
+    timestamps — encoded by the grammar decodes to exactly its entries, in order, and the iteration
+    ends normally.  (Format 1: the timestamp comes back as the integer that was encoded — finding F1,
+    repaired.)  `ext.crc` is any checksum function. -/
+theorem C05_msgset_roundtrip : Afkak.Props.C05.C05_msgset_roundtrip_stmt :=
+  fun ext depth entries hv hp => msgset_roundtrip ext depth entries hv hp
+
+/-- one message: what `_decode_message` yields for the grammar's encoding of a plain message -/
+theorem C05_message_roundtrip (ext : Ext) (recSet : Bytes → Gen) (off : Int) (m : Spec.Msg)
+    (hv : (Spec.message ext.crc).valid m = true) (hplain : m.attributes % 4 = 0) :
+    decodeMessageWith ext recSet (some ((Spec.message ext.crc).enc m)) off = ([⟨off, toMessage m⟩], none) :=
+  message_roundtrip ext recSet off m hv hplain
+
+example : (Spec.messageSet (fun _ => 7)).valid
+    [(5, ⟨1, 8, some 1234, some [107], some []⟩), (-1, ⟨0, 0, none, none, some [118]⟩)] = true := by decide
+
+/-- **Compressed wrappers, absolute offsets** (gzip, one level, both formats, mixed with plain messages,
+    ANY inner offsets, under `gunzip (gzip x) = x`): decoding yields exactly the messages the protocol
+    says the set contains (`Entry.contents`: inner offsets as stored for a format-0 wrapper,
+    `wrapper offset − last inner offset + inner offset` for a format-1 wrapper — finding F2, repaired),
+    then ends normally; and that is also what the monitor demands of the implementation. -/
+theorem C05_gzip_roundtrip_partial (ext : Ext) (gzip : Bytes → Bytes) (hg : ∀ x, ext.gunzip (some (gzip x)) = .ok x)
+    (depth : Nat) (es : List Entry) (hok : ∀ e ∈ es, e.Ok ext.crc)
+    (hv : (Spec.messageSet ext.crc).valid (es.map (Entry.toSpec ext.crc gzip)) = true) :
+    decodeMessageSet ext (depth + 2) ((Spec.messageSet ext.crc).enc (es.map (Entry.toSpec ext.crc gzip))) =
+      ((es.flatMap Entry.contents).map toOM, none)
+    ∧ expectedSet ext.crc (fun b => (ext.gunzip (some b)).toOption) (depth + 1) (es.map (Entry.toSpec ext.crc gzip)) =
+      some ((es.flatMap Entry.contents).map toOM, none) :=
+  gzip_roundtrip ext gzip hg depth es hok hv
+
+/-- the offset rules, on a compacted format-1 wrapper (inner relative offsets 0, 2, 5 under wrapper offset 105)
+    and on a format-0 wrapper -/
+example : Entry.contents (.wrapper 105 ⟨1, 1, some 0, none, none⟩
+      [(0, ⟨1, 0, some 1, none, some [97]⟩), (2, ⟨1, 0, some 2, none, some [98]⟩), (5, ⟨1, 0, some 3, none, some [99]⟩)])
+    = [(100, ⟨1, 0, some 1, none, some [97]⟩), (102, ⟨1, 0, some 2, none, some [98]⟩), (105, ⟨1, 0, some 3, none, some [99]⟩)] := by
+  decide
+example : Entry.contents (.wrapper 41 ⟨0, 1, none, none, none⟩ [(40, ⟨0, 0, none, none, some [97]⟩), (41, ⟨0, 0, none, none, none⟩)])
+    = [(40, ⟨0, 0, none, none, some [97]⟩), (41, ⟨0, 0, none, none, none⟩)] := by decide
+
+/-- **Fetch v0 / v2, layout**: every (topic, partition, error, high watermark) comes back in order, and
+    each partition's `messages` is the message-set decoder run on exactly that partition's record set
+    (for ANY record sets — compressed or not). -/
+theorem C05_fetch_structure (ext : Ext) (depth : Nat) :
+    (∀ v, (Spec.fetchResponseV0 ext.crc).valid v = true → topicsAscii v.2 = true →
+      ∃ cur, decodeFetchResponse ext depth ((Spec.fetchResponseV0 ext.crc).enc v) 0 =
+        (flatten (fetchRespOf ext depth) v.2, .ok cur))
+    ∧ (∀ v, (Spec.fetchResponseV2 ext.crc).valid v = true → topicsAscii v.2.2 = true →
+      ∃ cur, decodeFetchResponse ext depth ((Spec.fetchResponseV2 ext.crc).enc v) 2 =
+        (flatten (fetchRespOf ext depth) v.2.2, .ok cur)) :=
+  ⟨fun v hv ha => fetchV0_structure ext depth v hv ha, fun v hv ha => fetchV2_structure ext depth v hv ha⟩
+
+/-- Fetch v0 with uncompressed record sets: the monitor's expectation is met (`_partial`: the
+    excluded situation — some message carries codec bits — is the hypothesis `allPlain`). -/
+theorem C05_fetch_v0_roundtrip_partial (ext : Ext) (depth : Nat) (v : Spec.FetchRespV0) (e : List FetchResp)
+    (hp : allPlain v.2)
+    (he : expectedFetchV0 ext.crc (fun b => (ext.gunzip (some b)).toOption) (depth + 1) v = some (e, true)) :
+    finished (decodeFetchResponse ext (depth + 1) ((Spec.fetchResponseV0 ext.crc).enc v) 0) e := by
+  unfold expectedFetchV0 at he
+  split at he
+  · rename_i hc
+    have hc := Bool.and_eq_true_iff.mp hc
+    have hv2 := (seq_valid hc.1).2
+    rw [expectedFetchParts_plain ext _ depth v.2 hv2 hp] at he
+    simp only [Option.map_some, Option.some.injEq, Prod.mk.injEq, and_true] at he
+    obtain ⟨cur, h⟩ := fetchV0_structure ext (depth + 1) v hc.1 hc.2
+    rw [h, ← he]
+    exact ⟨rfl, cur, rfl⟩
+  · cases he
+
+/-- Fetch v2 with uncompressed record sets -/
+theorem C05_fetch_v2_roundtrip_partial (ext : Ext) (depth : Nat) (v : Spec.FetchRespV2) (e : List FetchResp)
+    (hp : allPlain v.2.2)
+    (he : expectedFetchV2 ext.crc (fun b => (ext.gunzip (some b)).toOption) (depth + 1) v = some (e, true)) :
+    finished (decodeFetchResponse ext (depth + 1) ((Spec.fetchResponseV2 ext.crc).enc v) 2) e := by
+  unfold expectedFetchV2 at he
+  split at he
+  · rename_i hc
+    have hc := Bool.and_eq_true_iff.mp hc
+    have hv2 := (seq_valid (seq_valid hc.1).2).2
+    rw [expectedFetchParts_plain ext _ depth v.2.2 hv2 hp] at he
+    simp only [Option.map_some, Option.some.injEq, Prod.mk.injEq, and_true] at he
+    obtain ⟨cur, h⟩ := fetchV2_structure ext (depth + 1) v hc.1 hc.2
+    rw [h, ← he]
+    exact ⟨rfl, cur, rfl⟩
+  · cases he
 
 /-! ## responses: decoding the grammar's encoding gives the value back
 
@@ -120,6 +212,14 @@ theorem C05_api_versions_roundtrip : Afkak.Props.C05.C05_api_versions_roundtrip_
 theorem C05_subscription_roundtrip : Afkak.Props.C05.C05_subscription_roundtrip_stmt :=
   fun v e he => subscription_roundtrip v e he
 
+/-- the assignment inside SyncGroup -/
+theorem C05_assignment_roundtrip : Afkak.Props.C05.C05_assignment_roundtrip_stmt :=
+  fun v e he => assignment_roundtrip v e he
+
+/-- Metadata v0: brokers and topics as dicts keyed by node id / topic / partition, nothing lost -/
+theorem C05_metadata_roundtrip : Afkak.Props.C05.C05_metadata_roundtrip_stmt :=
+  fun v e he => metadata_roundtrip v e he
+
 /-- the correlation id is read back from any response -/
 theorem C05_correlation_id (corr : Int) (rest : Bytes) (e : Int) (he : expectedCorrelationId corr = some e) :
     getResponseCorrelationId (int32.enc corr ++ rest) = .ok e := by
@@ -142,6 +242,12 @@ end Afkak.Props.C05
 C05_absolute_offsets_v1
 C05_v1_inner_error
 C05_absolute_offsets_v0
+C05_msgset_roundtrip
+C05_message_roundtrip
+C05_gzip_roundtrip_partial
+C05_fetch_structure
+C05_fetch_v0_roundtrip_partial
+C05_fetch_v2_roundtrip_partial
 C05_produce_v0_roundtrip
 C05_produce_v2_roundtrip
 C05_list_offsets_roundtrip
@@ -153,13 +259,12 @@ C05_sync_group_roundtrip
 C05_error_only_roundtrip
 C05_api_versions_roundtrip
 C05_subscription_roundtrip
+C05_assignment_roundtrip
+C05_metadata_roundtrip
 C05_correlation_id
 -/
 /- OPEN_STATEMENTS
-C05_msgset_roundtrip
 C05_gzip_roundtrip
 C05_fetch_v0_roundtrip
 C05_fetch_v2_roundtrip
-C05_metadata_roundtrip
-C05_assignment_roundtrip
 -/
